@@ -89,6 +89,46 @@ CHECKS["C05"] = dict(
          "Known findings F22 (IPv4Network canonical form vs string options), F23 (foreign-algorithm digest), F25 (resolved path vs string options).",
     technique="Lean 4 proof (mutual structural recursion over field declarations) + model/implementation correspondence",
     design="6 C05")
+CFG_NOTE = ("Model hand-written (Cinco/Config/*.lean: build, _set_value, __setitem__, load_tree, validate, reset, to_tree in code order, "
+            "every operation returning the state at return/raise); tie = differential histories with full state comparison after every "
+            "operation. Field layer as in C05. Strings outside the model alphabet with case/regex fields are counted as unmodelled.")
+CHECKS["C01"] = dict(
+    text="Lean 4 theorems about the code-order configuration model: read-back (an accepted assignment stores exactly validate's result), "
+         "frame (an assignment, accepted or rejected, of anything changes no other key), the invariant 'every held value at any depth is "
+         "unset or a result of its field's validation' (Cinco/Proofs/Inv.lean, where proved), and a decide obligation over method sets "
+         "regenerated from the source on every run: ListProxy/DictProxy override every inserting entry point of list/dict. "
+         "Correspondence: random schemas x histories (assignment by dotted path and chained attributes of values, maps, configuration "
+         "objects; load_tree; validate; reset; to_tree) with full-state comparison after every step, plus re-validation of every "
+         "readable value by its own field and a mutation stream over every list/dict mutator.",
+    note=CFG_NOTE + " Values of AnyField / untyped containers are unconstrained. The table of inserting entry points of list/dict is trusted.",
+    technique="Lean 4 proof (case analysis and induction over the operation model; decide over generated method sets) + model/implementation correspondence",
+    design="6 C01")
+CHECKS["C06"] = dict(
+    text="Lean 4 theorems: a rejected _set_value (leaf value, map or configuration assigned to a sub-configuration slot, list assigned to "
+         "a list of configurations) returns the state it was given — validation and the construction+loading of the new sub-configuration "
+         "precede the first write; the same through dotted paths at any depth (induction on the path); decide obligation on the generated "
+         "effect sequence of Config.loads: parsing and include processing strictly before load_tree. Correspondence + snapshots: the "
+         "history stream with invalid arguments up-weighted, single-element proxy insertions, malformed documents in five formats.",
+    note=CFG_NOTE + " Multi-element operations and a load_tree failing midway are outside the property and modelled as non-atomic.",
+    technique="Lean 4 proof (write-ordering in a state-at-raise model; decide over a generated effect sequence) + model/implementation correspondence",
+    design="6 C06")
+CHECKS["C12"] = dict(
+    text="Lean 4 theorems: __setdefault__ marks exactly its own key and touches no other; a plain field starts at its declared default; an "
+         "accepted assignment defines exactly its key; a rejected one changes no status (corollary of C06); reset = __setdefault__ on the "
+         "owner: restores value and status, frames everything else. Correspondence: histories with reset/is_value_defined, plus direct "
+         "oracles (fresh configuration, callable defaults evaluated anew per configuration and per reset).",
+    note=CFG_NOTE + " 'defined exactly when last touch accepted' over whole histories is checked by the correspondence, proved per step.",
+    technique="Lean 4 proof (per-step state-machine lemmas) + model/implementation correspondence",
+    design="6 C12")
+CHECKS["C15"] = dict(
+    text="Lean 4 theorems: every rejection of any value (any Python kind, configuration objects included) for a declared leaf, virtual or "
+         "instance-method field is the library's ValidationError; its path is the owning configuration's path joined with the key (plus "
+         "[key] for dict entries); non-map values for a sub-configuration slot name the slot; dotted assignment descends with the joined "
+         "path. Correspondence: rejections on every route (dotted, chained attribute, load_tree, documents in five formats, constructor "
+         "keywords, include pre-pass) with exception class and ref_path compared to the model and checked to resolve in the schema.",
+    note=CFG_NOTE + " Unknown keys on non-dynamic configurations raise AttributeError (not a declared field). Messages are not compared.",
+    technique="Lean 4 proof (case analysis over the wrapped regions of the operation model) + model/implementation correspondence",
+    design="6 C15")
 PENDING = ["C01", "C02", "C03", "C04", "C05", "C06", "C07", "C08", "C09", "C10", "C11", "C12", "C13", "C14", "C15", "C16",
            "C17", "C19", "C20"]
 
